@@ -205,7 +205,10 @@ fn process_dir(
                     *quit = true;
                     break;
                 }
-                if matcher_io.should_skip_current_dir() {
+                // With -depth a directory's contents have already been visited when
+                // the directory itself is evaluated, so -prune has no effect; calling
+                // skip_current_dir() then would abandon the *parent* directory instead.
+                if matcher_io.should_skip_current_dir() && !config.depth_first {
                     it.skip_current_dir();
                 }
             }
